@@ -63,3 +63,19 @@ LEVEL_NOTE = ("Trusted: Lean kernel; the hand-written cascade model (exhaustivel
               "on every run) establishes that the tree has the repaired variants (G3, G4), which C11_table_tree then uses; the "
               "tree before the repairs is refuted by C11_cex_named_default_ignored / C11_cex_magic_not_token.")
 TECHNIQUE = "Lean 4 proof (range split by omega + finite case analysis) over a model of the selection cascade + exhaustive differential execution of the real cif_parse"
+
+# ---- group gV: the byte-level character source ----
+LEAN_MODULES += ["CifModel.Props.C08Stream"]
+REQUIRED += ["CifModel.C11_utf16_incremental"]
+FAMILIES += ["ustream"]
+PARTIAL += [
+    "byte level: the UTF-8 and UTF-16LE/BE converters are now modelled (Model/Ustream.lean, tied to ICU by family `ustream`) and "
+    "proved incremental (C11_utf16_incremental, C08_utf8_incremental): each delivers its one-shot decoding under any buffer / "
+    "request alignment; that the UTF-8 and the UTF-16 encoding of the same text decode to the SAME units "
+    "(C11_same_units_any_signature_full) is stated but not proved — it needs the encoders and their round-trip arithmetic",
+]
+REQUIRED += ["CifModel.C11_same_units_any_signature_partial"]
+PARTIAL += [
+    "C11_same_units_any_signature_partial proves the statement of C11_same_units_any_signature_full (a `def … : Prop` in "
+    "Props/C08Stream.lean) for ASCII text only — the characters CIF syntax itself consists of; non-ASCII scalar values are missing",
+]
